@@ -9,7 +9,7 @@
    WHAT THE MODEL DOES (determined by vm_compute, see the examples at the end; L = number of closed files, the file
    being written is r<L>):  there is no rCURRENT, the file being written is the first entry of the listing that the
    cleanup works on, and it COUNTS for the first limit; cleanup_impl raises a first limit of 0 to 1 for the direct
-   namings, which is what protects it.  So, with (n, m) = klimd k = (max 1 n0, m) for KeepLogAndCompressedFiles(n0, m):
+   namings; besides (repaired code) the cleanup is told which file it is and skips it - see CurrentSpared.v.  So, with (n, m) = klimd k = (max 1 n0, m) for KeepLogAndCompressedFiles(n0, m):
      - the plain files are r<L+1-n> .. r<L>: the current file and the newest n - 1 closed files (NOT n closed files as with
        Numbers naming: KeepLogFiles(2) keeps rCURRENT + 2 closed files there, r<L> + 1 closed file here);
      - the archives are the m closed files before them;
@@ -460,11 +460,11 @@ Example d_index_100000_repaired :
   /\ rname (dbig_c (KLog 1)) (N.to_nat 100000) = bs "a_r100000.log"%string
   /\ list_log_gz 0 (c_spec (dbig_c (KLog 1))) (fixed0 (dbig_c (KLog 1))) dbig_fs IFNum
      = Some [bs "a_r100000.log"%string; bs "a_r99999.log"%string]
-  /\ (let r := cleanup_impl (dbig_c (KLog 1)) (world_of dbig_fs) (KLog 1) IFNum true in
+  /\ (let r := cleanup_impl (dbig_c (KLog 1)) (world_of dbig_fs) (KLog 1) IFNum (Some (bs "a_r100000.log"%string)) in
       fst r = Ok tt
       /\ map (data_at (wfs (snd r))) [bs "a_r99999.log"%string; bs "a_r100000.log"%string] = [[]; bs "current"%string]
       /\ lookup (wfs (snd r)) (bs "a_r99999.log"%string) = None)
-  /\ (let r := cleanup_impl (dbig_c (KGz 1)) (world_of dbig_fs) (KGz 1) IFNum true in
+  /\ (let r := cleanup_impl (dbig_c (KGz 1)) (world_of dbig_fs) (KGz 1) IFNum (Some (bs "a_r100000.log"%string)) in
       fst r = Ok tt
       /\ lookup (wfs (snd r)) (bs "a_r99999.log"%string) = None /\ lookup (wfs (snd r)) (bs "a_r100000.log.gz"%string) = None
       /\ map (data_at (wfs (snd r))) [bs "a_r99999.log.gz"%string; bs "a_r100000.log"%string] = [bs "closed"%string; bs "current"%string]).
@@ -487,11 +487,11 @@ Example d_index_100000_empty_fixed_repaired :
   /\ rname (dnofix_c (KLog 1)) (N.to_nat 100000) = bs "r100000.log"%string
   /\ list_log_gz 0 (c_spec (dnofix_c (KLog 1))) (fixed0 (dnofix_c (KLog 1))) dnofix_fs IFNum
      = Some [bs "r100000.log"%string; bs "r99999.log"%string]
-  /\ (let r := cleanup_impl (dnofix_c (KLog 1)) (world_of dnofix_fs) (KLog 1) IFNum true in
+  /\ (let r := cleanup_impl (dnofix_c (KLog 1)) (world_of dnofix_fs) (KLog 1) IFNum (Some (bs "r100000.log"%string)) in
       fst r = Ok tt
       /\ map (data_at (wfs (snd r))) [bs "r99999.log"%string; bs "r100000.log"%string] = [[]; bs "current"%string]
       /\ lookup (wfs (snd r)) (bs "r99999.log"%string) = None)
-  /\ (let r := cleanup_impl (dnofix_c (KGz 1)) (world_of dnofix_fs) (KGz 1) IFNum true in
+  /\ (let r := cleanup_impl (dnofix_c (KGz 1)) (world_of dnofix_fs) (KGz 1) IFNum (Some (bs "r100000.log"%string)) in
       fst r = Ok tt
       /\ lookup (wfs (snd r)) (bs "r99999.log"%string) = None /\ lookup (wfs (snd r)) (bs "r100000.log.gz"%string) = None
       /\ map (data_at (wfs (snd r))) [bs "r99999.log.gz"%string; bs "r100000.log"%string] = [bs "closed"%string; bs "current"%string]).
